@@ -10,7 +10,8 @@
 //!   G:<k>  M:<k>,<k>  S:<p>   get / get_multi / scan_prefix (flush the pending chunk first)
 //!   U:<p>             the private `prefix_successor(p)` of the RocksDB engine (hook), printed as a read `U<hex|_>`
 //!   X:<p>             (C25) scan_prefix(p) with the pending chunk applied *inside* the scan/apply gap:
-//!                     RocksDB: between iteration and the revision read (hook `verif_scan_gap`);
+//!                     RocksDB: between the revision load and the iterator creation (since the F24 fix; hook
+//!                     `verif_set_rocks_scan_gap_callback`);
 //!                     File: the scan runs between the memory update and `update_last_applied`
 //!                     (hook `verif_apply_gap`).
 //! bytes are lowercase hex, `-` = empty.
@@ -192,7 +193,7 @@ fn run_engine<S: StateMachine>(sm: Arc<S>, kind: Kind, ops: &[Op], universe: &[V
                 let out: Arc<Mutex<Option<Result<String, String>>>> = Arc::new(Mutex::new(None));
                 match kind {
                     Kind::Rocks => {
-                        // scan runs; between iteration and revision read the chunk is applied
+                        // scan runs; between its revision load and the iterator creation the chunk is applied
                         let sm2 = sm.clone();
                         let o2 = out.clone();
                         let n = chunk.len();
